@@ -41,7 +41,7 @@ KIND = {'rootB': '/', 'staticB': '/a/b/', 'staticL': '/a/b', 'singleB': '/a/<x>/
 # the same bound pattern reached through different (prefix, inner pattern) splits of an embedding (Embed.tla: the bound
 # pattern is the concatenation); '/a/b' + '/' makes the embedded application's ROOT route the branch '/a/b/'
 SPLITS = {'rootB': [('/', '/')],
-          'staticB': [('/', '/a/b/'), ('/a', '/b/'), ('/a/b', '/'), ('/a/', '/b/')],
+          'staticB': [('/a/b', '/'), ('/', '/a/b/'), ('/a/b/', '/'), ('/a', '/b/'), ('/a/b', '/'), ('/a/', '/b/')],
           'staticL': [('/', '/a/b'), ('/a', '/b')],
           'singleB': [('/', '/a/<x>/'), ('/a', '/<x>/')], 'singleL': [('/', '/a/<x>'), ('/a', '/<x>')],
           'multiB': [('/', '/a/<r*>/'), ('/a', '/<r*>/')], 'multiL': [('/', '/a/<r*>'), ('/a', '/<r*>')]}
